@@ -3,7 +3,7 @@
    real code before the repairs (known_findings.json, "fixed"). Also: the premises of the safety
    theorems are satisfiable (a concrete history with crashes meets hist_ok). *)
 From LB Require Import Base.Prelude Log.Model Log.Retention Log.Compact Codec.Message Log.Proofs Log.Disk Log.DiskBase Log.DiskProofs
-  Log.DiskBlocks Log.DiskTrunc Log.DiskClean Log.DiskCleanOp Log.DiskSafety.
+  Log.DiskBlocks Log.DiskTrunc Log.DiskClean Log.DiskCleanOp Log.DiskSafety Log.DiskTear Log.DiskTorn.
 Open Scope Z_scope.
 
 Definition P1000 : params := mkP 1000 (mkLimits 0 0 0) false.
@@ -65,3 +65,45 @@ Proof.
   all: try (intros s'' E2; vm_compute in E2; injection E2 as <-).
   all: vm_compute; intros e st Hin; repeat (destruct Hin as [Hin|Hin]; [injection Hin as <- <-; intros Hc; discriminate Hc|]); destruct Hin.
 Qed.
+
+(* ---- torn writes (Log.DiskTear Log.DiskTorn) ---- *)
+(* the second append (two messages) dies inside write(2): the first frame and 5 bytes of the second
+   are in the log file. Reopened, the log holds offsets 0 and 1; the next append gets offset 2. The
+   same when it dies inside the store of the two index entries (one whole entry and a partial one
+   whose position+size read 41). *)
+Definition torn_history (n : nat) (z : Z) : list tstep :=
+  [TStep (HDo (DAppend [msg1 1])); TTorn (DAppend [msg1 1; msg1 1]) n 1 (Some z); TStep (HDo (DAppend [msg1 1]))].
+
+Lemma torn_histories_fine :
+  offsets_of (fold_left (tstep_run key_of P1000) (torn_history 1 5) (init key_of fixed P1000)) = [0; 1; 2] /\
+  offsets_of (fold_left (tstep_run key_of P1000) (torn_history 3 41) (init key_of fixed P1000)) = [0; 1; 2; 3].
+Proof. vm_compute. split; reflexivity. Qed.
+
+(* the premises of the torn-write theorems are satisfiable *)
+Lemma torn_history_ok : exists s0, init key_of fixed P1000 = Some s0 /\ thist_ok key_of P1000 s0 (torn_history 1 5) /\ thist_ok key_of P1000 s0 (torn_history 3 41).
+Proof.
+  eexists. split; [reflexivity|].
+  assert (Hcb : forall c : epoch_cache, c = [(1%N, 0)] -> forall n, ep_mono (cache_latest_epoch c) (number n [msg1 1]) /\ ep_mono (cache_latest_epoch c) (number n [msg1 1; msg1 1])).
+  { intros c -> n. vm_compute. repeat split; intros; discriminate. }
+  split; unfold torn_history, thist_ok, tstep_ok, op_of, op_ok.
+  all: repeat match goal with
+         | |- _ /\ _ => split
+         | |- forall s', _ = Some s' -> _ => let s' := fresh "s'" in let E := fresh "E" in intros s' E; vm_compute in E; injection E as <-
+         | |- True => exact I
+         | |- _ <> [] => discriminate
+         | |- exists e d, _ => eexists; eexists; split; [vm_compute; reflexivity|vm_compute; repeat split; intros; discriminate]
+         | |- ep_mono _ _ => vm_compute; repeat split; intros; discriminate
+         end.
+Qed.
+
+(* without the index rebuild (pinned commit) the junk stays in the log file: commitlog.New leaves a
+   directory the model cannot describe (every later read of that segment fails on the junk) *)
+Lemma torn_no_rebuild_stuck :
+  match init key_of (mkV false true true) P1000 with
+  | Some s0 => match exec key_of (mkV false true true) P1000 s0 (DAppend [msg1 1]) with
+               | Some s1 => crash_torn key_of (mkV false true true) P1000 s1 (DAppend [msg1 1; msg1 1]) 1 1 (Some 5)
+               | None => None
+               end
+  | None => None
+  end = None.
+Proof. vm_compute. reflexivity. Qed.
